@@ -11,6 +11,7 @@ from sqllineage.core.models import Path, SubQuery, Table
 from sqllineage.core.parser.sqlfluff.models import SqlFluffSubQuery, SqlFluffTable
 from sqllineage.core.parser.sqlfluff.utils import (
     SUBQUERY_CLAUSE_TYPES,
+    extract_identifier,
     find_from_expression_element,
     find_table_identifier,
     is_subquery,
@@ -158,14 +159,7 @@ class BaseExtractor:
                 subquery_flag = False
                 alias = None
                 if len(all_segments) > 1 and all_segments[1].type == "alias_expression":
-                    alias_segment = all_segments[1]
-                    all_segments = list_child_segments(alias_segment)
-                    alias = str(
-                        all_segments[1].raw
-                        if len(all_segments) > 1
-                        # exasol lexes [x] as one symbol, such an alias has no identifier child, keep its text
-                        else (all_segments[0] if all_segments else alias_segment).raw
-                    )
+                    alias = extract_identifier(all_segments[1])
                 if "." not in table_identifier.raw:
                     cte_dict = {s.alias: s for s in holder.cte}
                     cte = cte_dict.get(escape_identifier_name(table_identifier.raw))
